@@ -53,99 +53,184 @@ func vBase(d *Document, typ int) {
 	zzvsym.Assert(err == nil, "base-update-no-error")
 }
 
-// vEdit performs one local edit of content type typ on d, chosen by
-// selectors named after name. val makes payloads distinct per client/op.
-// Indices are chosen within the bounds of what the replica currently shows,
-// as a user of the index-based API would.
-func vEdit(d *Document, name string, typ int, val int) {
-	var paniced bool
-	err := error(nil)
-	paniced = zzvsym.Fails(func() {
-		err = d.Update(func(root *json.Object, p *presence.Presence) error {
-			switch typ {
-			case vTObject:
-				o := root.GetObject("o")
-				switch zzvsym.IntRange(name+"_k", 0, 3) {
-				case 0:
-					o.SetInteger("a", val)
-				case 1:
-					o.Delete("a")
-				case 2:
-					o.SetInteger("c", val)
-				case 3:
-					o.SetNewObject("a").SetInteger("n", val)
-				}
-			case vTArray:
-				arr := root.GetArray("arr")
-				n := arr.Len()
-				k := zzvsym.IntRange(name+"_k", 0, 4)
-				if n == 0 {
-					k = 4
-				}
-				switch k {
-				case 0:
-					arr.InsertIntegerAfter(zzvsym.IntRange(name+"_i", 0, n-1), val)
-				case 1:
-					arr.Delete(zzvsym.IntRange(name+"_i", 0, n-1))
-				case 2:
-					i := zzvsym.IntRange(name+"_i", 0, n-1)
-					j := zzvsym.IntRange(name+"_j", 0, n-1)
-					zzvsym.Assume(i != j)
-					arr.MoveAfterByIndex(i, j)
-				case 3:
-					arr.SetInteger(zzvsym.IntRange(name+"_i", 0, n-1), val)
-				case 4:
-					arr.AddInteger(val)
-				}
-			case vTText:
-				txt := root.GetText("txt")
-				n := len(txt.String()) // ASCII payloads only: UTF-16 length == byte length
-				from := zzvsym.IntRange(name+"_f", 0, n)
-				to := zzvsym.IntRange(name+"_t", from, n)
-				switch zzvsym.IntRange(name+"_k", 0, 2) {
-				case 0:
-					txt.Edit(from, to, string(rune('A'+val%26)))
-				case 1:
-					zzvsym.Assume(from < to)
-					txt.Edit(from, to, "")
-				case 2:
-					zzvsym.Assume(from < to)
-					txt.Style(from, to, map[string]string{"b": string(rune('0' + val%10))})
-				}
-			case vTCounter:
-				root.GetCounter("cnt").Increase(val)
-			case vTTree:
-				tr := root.GetTree("tree")
-				// structure-preserving domain (C01): text edits inside one
-				// element, whole-element insert/delete, style
-				switch zzvsym.IntRange(name+"_k", 0, 4) {
-				case 0: // insert text inside the first paragraph
-					i := zzvsym.IntRange(name+"_i", 1, 3)
-					tr.Edit(i, i, &json.TreeNode{Type: "text", Value: string(rune('A' + val%26))}, 0)
-				case 1: // delete one character inside the first paragraph
-					i := zzvsym.IntRange(name+"_i", 1, 2)
-					tr.Edit(i, i+1, nil, 0)
-				case 2: // insert a whole element between / around the paragraphs
-					i := []int{0, 4, 8}[zzvsym.IntRange(name+"_i", 0, 2)]
-					if i > tr.Len() {
-						i = tr.Len()
-					}
-					tr.Edit(i, i, &json.TreeNode{Type: "p", Children: []json.TreeNode{{Type: "text", Value: string(rune('a' + val%26))}}}, 0)
-				case 3: // delete a whole paragraph
-					zzvsym.Assume(tr.Len() >= 8)
-					i := []int{0, 4}[zzvsym.IntRange(name+"_i", 0, 1)]
-					tr.Edit(i, i+4, nil, 0)
-				case 4: // style the first paragraph
-					tr.Style(0, 1, map[string]string{"b": string(rune('0' + val%10))})
-				}
+// vSmallAlphabet restricts index choices to the ends of a sequence; set by
+// harnesses with deep histories.
+var vSmallAlphabet bool
+
+// vOp is one edit of the alphabet with its concrete parameters.
+type vOp struct {
+	typ, k, i, j, val int
+}
+
+// vPick chooses one local edit of content type typ by selectors named
+// after name. Indices are chosen within the bounds of what replica d
+// currently shows, as a user of the index-based API would.
+func vPick(d *Document, name string, typ int, val int) vOp {
+	op := vOp{typ: typ, val: val}
+	root := d.Root()
+	switch typ {
+	case vTObject:
+		op.k = zzvsym.IntRange(name+"_k", 0, 3)
+	case vTArray:
+		n := root.GetArray("arr").Len()
+		op.k = zzvsym.IntRange(name+"_k", 0, 4)
+		if n == 0 {
+			op.k = 4
+		}
+		idx := func(sel string) int {
+			if vSmallAlphabet && n > 2 {
+				// reduced alphabet for deep histories: first or last element
+				return []int{0, n - 1}[zzvsym.IntRange(name+sel, 0, 1)]
 			}
+			return zzvsym.IntRange(name+sel, 0, n-1)
+		}
+		switch op.k {
+		case 0, 1, 3:
+			op.i = idx("_i")
+		case 2:
+			zzvsym.Assume(n >= 2)
+			op.i = idx("_i")
+			op.j = idx("_j")
+			zzvsym.Assume(op.i != op.j)
+		}
+	case vTText:
+		n := len(root.GetText("txt").String()) // ASCII payloads only: UTF-16 length == byte length
+		// representative ranges: both ends, the middle, first/last character,
+		// the interior, everything
+		pairs := [][2]int{{0, 0}, {n, n}, {n / 2, n / 2}, {0, 1}, {1, n - 1}, {n - 1, n}, {0, n}}
+		r := pairs[zzvsym.IntRange(name+"_r", 0, len(pairs)-1)]
+		zzvsym.Assume(r[0] >= 0 && r[0] <= r[1] && r[1] <= n)
+		op.i, op.j = r[0], r[1]
+		op.k = zzvsym.IntRange(name+"_k", 0, 2)
+		if op.k != 0 {
+			zzvsym.Assume(op.i < op.j)
+		}
+	case vTCounter:
+	case vTTree:
+		// structure-preserving domain (C01): text edits inside one element,
+		// whole-element insert/delete, style
+		tr := root.GetTree("tree")
+		op.k = zzvsym.IntRange(name+"_k", 0, 4)
+		switch op.k {
+		case 0:
+			op.i = zzvsym.IntRange(name+"_i", 1, 3)
+		case 1:
+			op.i = zzvsym.IntRange(name+"_i", 1, 2)
+		case 2:
+			op.i = []int{0, 4, 8}[zzvsym.IntRange(name+"_i", 0, 2)]
+			if op.i > tr.Len() {
+				op.i = tr.Len()
+			}
+		case 3:
+			zzvsym.Assume(tr.Len() >= 8)
+			op.i = []int{0, 4}[zzvsym.IntRange(name+"_i", 0, 1)]
+		}
+		// the first paragraph must still look as the selectors assume
+		zzvsym.Assume(vTreeShapeOK(tr.ToXML()))
+	}
+	return op
+}
+
+// vTreeShapeOK restricts tree edits to states where the index arithmetic of
+// the alphabet (first paragraph = indices 0..4 holding >= 2 characters) is
+// still valid; other states are outside the bound, not violations.
+func vTreeShapeOK(xml string) bool {
+	return len(xml) >= 12 && xml[:6] == "<r><p>" && xml[6] != '<' && xml[7] != '<'
+}
+
+// vFixedOp is one representative edit per content type that is valid in
+// every state the alphabets can produce.
+func vFixedOp(typ, val int) vOp {
+	switch typ {
+	case vTObject:
+		return vOp{typ: typ, k: 2, val: val} // set o.c
+	case vTArray:
+		return vOp{typ: typ, k: 4, val: val} // append
+	case vTText:
+		return vOp{typ: typ, k: 0, i: 0, j: 0, val: val} // insert at 0
+	case vTTree:
+		return vOp{typ: typ, k: 2, i: 0, val: val} // insert an element at the front
+	}
+	return vOp{typ: typ, val: val} // counter increase
+}
+
+// vApplyIn executes op inside an updater.
+func vApplyIn(root *json.Object, op vOp) {
+	val := op.val
+	switch op.typ {
+	case vTObject:
+		o := root.GetObject("o")
+		switch op.k {
+		case 0:
+			o.SetInteger("a", val)
+		case 1:
+			o.Delete("a")
+		case 2:
+			o.SetInteger("c", val)
+		case 3:
+			o.SetNewObject("a").SetInteger("n", val)
+		}
+	case vTArray:
+		arr := root.GetArray("arr")
+		switch op.k {
+		case 0:
+			arr.InsertIntegerAfter(op.i, val)
+		case 1:
+			arr.Delete(op.i)
+		case 2:
+			arr.MoveAfterByIndex(op.i, op.j)
+		case 3:
+			arr.SetInteger(op.i, val)
+		case 4:
+			arr.AddInteger(val)
+		}
+	case vTText:
+		txt := root.GetText("txt")
+		switch op.k {
+		case 0:
+			txt.Edit(op.i, op.j, string(rune('A'+val%26)))
+		case 1:
+			txt.Edit(op.i, op.j, "")
+		case 2:
+			txt.Style(op.i, op.j, map[string]string{"b": string(rune('0' + val%10))})
+		}
+	case vTCounter:
+		root.GetCounter("cnt").Increase(val)
+	case vTTree:
+		tr := root.GetTree("tree")
+		switch op.k {
+		case 0: // insert text inside the first paragraph
+			tr.Edit(op.i, op.i, &json.TreeNode{Type: "text", Value: string(rune('A' + val%26))}, 0)
+		case 1: // delete one character inside the first paragraph
+			tr.Edit(op.i, op.i+1, nil, 0)
+		case 2: // insert a whole element between / around the paragraphs
+			tr.Edit(op.i, op.i, &json.TreeNode{Type: "p", Children: []json.TreeNode{{Type: "text", Value: string(rune('a' + val%26))}}}, 0)
+		case 3: // delete a whole paragraph
+			tr.Edit(op.i, op.i+4, nil, 0)
+		case 4: // style the first paragraph
+			tr.Style(0, 1, map[string]string{"b": string(rune('0' + val%10))})
+		}
+	}
+}
+
+// vApply executes op on d through the public API.
+func vApply(d *Document, op vOp) (err error, panicked bool) {
+	panicked = zzvsym.Fails(func() {
+		err = d.Update(func(root *json.Object, p *presence.Presence) error {
+			vApplyIn(root, op)
 			return nil
 		})
 	})
-	if paniced {
-		// an index chosen from the replica's own visible state must be accepted
-		zzvsym.Assert(false, "local-edit-no-panic")
-	}
+	return err, panicked
+}
+
+// vEdit picks and performs one local edit; an edit chosen from the
+// replica's own visible state must be accepted.
+func vEdit(d *Document, name string, typ int, val int) vOp {
+	op := vPick(d, name, typ, val)
+	err, panicked := vApply(d, op)
+	zzvsym.Assert(!panicked, "local-edit-no-panic")
 	zzvsym.Assert(err == nil, "local-edit-no-error")
 	vCheckClone(d, "after-local-edit")
+	return op
 }
